@@ -31,9 +31,10 @@ type incSpec struct {
 	CrashNow bool `json:"crash_now,omitempty"`
 	Pool     int  `json:"pool,omitempty"`     // copierPoolSize (0: default 5)
 	Validate bool `json:"validate,omitempty"` // validateOnStart
-	// GateFirstSet: schedule control — the first queue.Set is held until the copy loop has
-	// delivered the blob and issued its queue.Delete.
-	GateFirstSet bool `json:"gate_first_set,omitempty"`
+	// ReuploadAtGate: schedule control — the first history blob is uploaded, the copy loop is
+	// held inside the gated lower-layer call (the fault spec with mode "gate"), the same blob is
+	// uploaded again while its copy is in flight, then the gate is opened.
+	ReuploadAtGate bool `json:"reupload_at_gate,omitempty"`
 }
 
 type scenario struct {
@@ -299,7 +300,7 @@ func generate(rng *rand.Rand, thorough bool) []*scenario {
 		add(&scenario{
 			ID:     fmt.Sprintf("RR/%d/%s/k%d-k%d", i, dest, k1, k2),
 			Family: "double-restart", Kind: "double-restart", Dest: dest, History: seq(m),
-			Incs:   []incSpec{first, {Uploads: 1, FreezeAt: int64(k2)}, clean()},
+			Incs: []incSpec{first, {Uploads: 1, FreezeAt: int64(k2)}, clean()},
 		}, bl)
 	}
 
@@ -365,14 +366,20 @@ func generate(rng *rand.Rand, thorough bool) []*scenario {
 		}, bl)
 	}
 
-	// ---- family "race": the copy loop wins against the enqueue (queue.Delete before queue.Set).
-	for _, dest := range dests {
-		bl := blobsFor(rng, dest, 2, tag())
-		add(&scenario{
-			ID: "S/delete-before-set/" + dest, Family: "race", Kind: "schedule-delete-before-set", Dest: dest, History: seq(2),
-			Incs: []incSpec{{Uploads: -1, FreezeAt: -1, GateFirstSet: true,
-				Faults: []faultSpec{{Layer: "queue", Op: "Set", Mode: "gate", Nth: []int{0}}}}},
-		}, bl)
+	// ---- family "race": a blob is uploaded again while its copy is in flight (held inside the
+	// destination receive, or between the destination's acknowledgement and the queue.Delete).
+	for _, g := range []struct{ layer, op, name string }{
+		{"dst", "ReceiveBlob", "reupload-during-dst-receive"},
+		{"queue", "Delete", "reupload-during-queue-delete"},
+	} {
+		for _, dest := range dests {
+			bl := blobsFor(rng, dest, 2, tag())
+			add(&scenario{
+				ID: "S/" + g.name + "/" + dest, Family: "race", Kind: "schedule-" + g.name, Dest: dest, History: seq(2),
+				Incs: []incSpec{{Uploads: -1, FreezeAt: -1, ReuploadAtGate: true,
+					Faults: []faultSpec{{Layer: g.layer, Op: g.op, Mode: "gate", Nth: []int{0}}}}},
+			}, bl)
+		}
 	}
 	return out
 }
